@@ -22,7 +22,7 @@ from harness import core
 from harness import frameops as fo
 from harness.core import attempt, cq_bool, cq_list
 from nested_pandas import NestedFrame
-from nested_pandas.series.packer import pack_flat, pack_lists, pack_seq
+from nested_pandas.series.packer import pack, pack_flat, pack_lists, pack_seq
 from nested_pandas.utils import count_nested
 
 RULE = ("one case = one interleaving of operations on a family of 8 related objects (original frame, deep copy, row slice, column "
@@ -68,6 +68,7 @@ def family(dense=False):
     fam["ser_deep"] = nf["n"].copy()
     fam["flat_arg"] = pd.DataFrame({"z": [1.0, 2.0, 3.0]}, index=["a", "a", "d"])
     fam["series_arg"] = pd.Series([10.0, 20.0, 30.0, 40.0], index=["a", "a", "a", "d"], name="given_name")
+    fam["key_arg"] = np.array([-1, 0])          # a caller-owned array of positions (negative ones included) used as an assignment key
     fam["np_arg"] = np.arange(float(nf["n"].nest.flat_length)) + 200.0      # a caller-owned numpy array offered as flat values
     fam["lists_arg"] = pd.DataFrame({"u": pd.Series(pa.array([[1], [2, 3], [], [4]], type=pa.list_(pa.int64())), dtype=pd.ArrowDtype(pa.list_(pa.int64())),
                                                      index=labels), "keep": [0, 1, 2, 3]}, index=labels)
@@ -96,6 +97,9 @@ def ops(tmpdir):
         "pack_flat_sorted_arg": ("pure", "flat_arg", lambda f: pack_flat(f["flat_arg"].sort_index(), name="p")),
         "pack_lists": ("pure", "lists_arg", lambda f: pack_lists(f["lists_arg"][["u"]], name="p")),
         "with_flat_field": ("pure", "ser", lambda f: f["ser"].nest.with_flat_field("w", np.arange(float(f["ser"].nest.flat_length)))),
+        "pack_seq_ser": ("pure", "ser", lambda f: pack_seq(f["ser"])),
+        "pack_ser": ("pure", "ser", lambda f: pack(f["ser"], name="again")),
+        "add_nested_ser": ("pure", "orig", lambda f: f["orig"].add_nested(f["ser_deep"], "extra2")),
         "with_flat_field_arg": ("pure", "ser", lambda f: f["ser"].nest.with_flat_field("w", f["np_arg"])),
         "with_list_field": ("pure", "ser", lambda f: f["ser"].nest.with_list_field(
             "t", pa.array([[9] * k for k in f["ser"].nest.list_lengths], type=pa.list_(pa.int64())))),
@@ -106,6 +110,10 @@ def ops(tmpdir):
         "concat": ("pure", "orig", lambda f: pd.concat([f["orig"].iloc[:0], f["orig"]])),
         # ---- in place: change the target (and what pandas defines as its views)
         "setfield_orig": ("inplace", "orig", lambda f: f["orig"].__setitem__("n.t", np.arange(100, 100 + f["orig"]["n"].nest.flat_length))),
+        "iloc_ser_deep_keyarg": ("inplace", "ser_deep", lambda f: f["ser_deep"].iloc.__setitem__(f["key_arg"], pack_seq(
+            [{"t": [5], "f": [5.5]}, {"t": [6, 6], "f": [6.5, 6.5]}], dtype=f["ser_deep"].dtype).array)),
+        "array_setitem_ser_deep_keyarg": ("inplace", "ser_deep", lambda f: f["ser_deep"].array.__setitem__(f["key_arg"], pack_seq(
+            [{"t": [8], "f": [8.5]}, None], dtype=f["ser_deep"].dtype).array)),
         "setfield_orig_arg": ("inplace", "orig", lambda f: f["orig"].__setitem__("n.f", f["np_arg"])),
         "nest_setitem_ser_deep_arg": ("inplace", "ser_deep", lambda f: f["ser_deep"].nest.__setitem__("f", f["np_arg"])),
         "setfield_new_nest": ("inplace", "orig", lambda f: f["orig"].__setitem__("m.z", f["series_arg"])),
@@ -128,7 +136,8 @@ def ops(tmpdir):
 # ser is extracted from orig without a copy: they share the nested array OBJECT, so an element write through either shows in both;
 # a whole-column (re)assignment on a frame rebinds the frame's column only.
 MAY_SHOW = {
-    "setfield_orig": {"orig"}, "setfield_orig_arg": {"orig"}, "nest_setitem_ser_deep_arg": {"ser_deep"}, "setfield_new_nest": {"orig"}, "loc_row_orig": {"orig", "ser", "cols", "rows"},
+    "setfield_orig": {"orig"}, "setfield_orig_arg": {"orig"}, "nest_setitem_ser_deep_arg": {"ser_deep"}, "setfield_new_nest": {"orig"},
+    "iloc_ser_deep_keyarg": {"ser_deep"}, "array_setitem_ser_deep_keyarg": {"ser_deep"}, "loc_row_orig": {"orig", "ser", "cols", "rows"},
     "iloc_ser_deep": {"ser_deep"}, "array_setitem_ser": {"ser", "orig", "cols", "rows"}, "nest_setitem_ser_deep": {"ser_deep"},
     "inplace_query_deep": {"deep"}, "inplace_sort_deep": {"deep"}, "inplace_dropna_rows": {"rows"}, "inplace_eval_deep": {"deep"},
     "base_assign_deep": {"deep"}, "setfield_cols": {"cols"},
@@ -209,7 +218,7 @@ def run_sequence(seq, table, dense=False):
                 pass   # a no-op in this state (e.g. nothing to drop) is fine
     # whatever ran: the caller's later in-place writes into ITS OWN argument objects must not show in any frame / series
     # of the family (an operation that keeps the caller's memory instead of copying it)
-    args = ("flat_arg", "series_arg", "lists_arg", "np_arg")
+    args = ("flat_arg", "series_arg", "lists_arg", "np_arg", "key_arg")
     before = {k: snap(v) for k, v in fam.items() if k not in args}
     try:
         fam["flat_arg"].iloc[0, 0] = 998.0
@@ -269,7 +278,7 @@ OBJ = {"orig": 0, "deep": 1, "rows": 2, "cols": 3, "ser": 4, "ser_deep": 5}
 
 
 def heap_op(name):
-    table = {"setfield_orig": "HRebind 0", "setfield_orig_arg": "HRebind 0", "nest_setitem_ser_deep_arg": "HRebind 5", "setfield_new_nest": "HRebind 0", "loc_row_orig": "HWriteCell 0", "iloc_ser_deep": "HWriteCell 5",
+    table = {"setfield_orig": "HRebind 0", "setfield_orig_arg": "HRebind 0", "nest_setitem_ser_deep_arg": "HRebind 5", "iloc_ser_deep_keyarg": "HWriteCell 5", "array_setitem_ser_deep_keyarg": "HWriteCell 5", "setfield_new_nest": "HRebind 0", "loc_row_orig": "HWriteCell 0", "iloc_ser_deep": "HWriteCell 5",
              "array_setitem_ser": "HWriteCell 4", "nest_setitem_ser_deep": "HRebind 5", "inplace_query_deep": "HRebind 1",
              "inplace_sort_deep": "HRebind 1", "inplace_dropna_rows": "HRebind 2", "inplace_eval_deep": "HRebind 1",
              "base_assign_deep": "HRebind 1", "setfield_cols": "HRebind 3"}
